@@ -2146,6 +2146,13 @@ def read_lines(path_or_source, *, include=False, include_dirs=None):
 def lex_tokens(line):
     RE_ERROR = re.compile(r'\s*error (.*)')
     RE_STRING = re.compile(r'\s*string (.*)')
+    RE_TOKEN = re.compile(r"""
+          [#].*                   # a comment runs to the end of the line
+        | [()]                    # a paren is a token of its own
+        | (?: '(?:[^\\]|\\.\w*)'  # a quoted character stays in one piece: ',' ' ' '#' '(' ''' '\n' '\x41'
+            | [^\s,()#]           # anything else up to whitespace, a comma, a paren or a comment
+          )+
+    """, re.VERBOSE)
 
     # simplify lexing a single string
     if type(line) == str:
@@ -2176,25 +2183,9 @@ def lex_tokens(line):
         tokens = ['string', value]
         return LineTokens(line, tokens)
 
-    # strip comments
-    contents = re.sub(r'#.*$', r'', line.contents)
-
-    # pad parens before split
-    contents = contents.replace('(', ' ( ').replace(')', ' ) ')
-
-    # strip whitespace
-    contents = contents.strip()
-
-    # skip empty lines
-    if len(contents) == 0:
-        return LineTokens(line, [])
-
-    # split line into tokens
-    tokens = re.split(r'[\s,]+', contents)
-
-    # remove empty tokens
-    while '' in tokens:
-        tokens.remove('')
+    # split line into tokens (and drop the comment)
+    tokens = RE_TOKEN.findall(line.contents)
+    tokens = [token for token in tokens if not token.startswith('#')]
 
     # carry the line and its tokens forward
     return LineTokens(line, tokens)
